@@ -27,9 +27,29 @@ LEAN_MODULES = ['HdVerif.Props.C06']
 MODEL_MODULES = ['HdVerif.Model.PixelPipeline']
 NAMESPACE = 'HdVerif.C06'
 DRIVER = 'Drivers/C06.lean'
-RULE = ''
-ASSUMPTIONS = []
-MODELLED_NOT_VERIFIED = []
+RULE = ('streams: flags (every (colour type, presence pattern) row x flag tuples through get_frame: all 46 656 cells in thorough, a sample in '
+        'quick), pipe (random images: 8/16 bit, signed/unsigned, BitsStored < BitsAllocated, MONOCHROME1/2 / PALETTE COLOR / RGB, presentation '
+        'shape, rescale (dyadic slopes incl. negative and non-integer, one attribute omitted) or modality LUT, windows (1-3 alternatives, '
+        'LINEAR / LINEAR_EXACT / SIGMOID / default, explanations) and/or VOI LUT sequence, real-world maps (linear / LUT, 1-3 maps), each '
+        'placed at image / shared / per-frame level (15 % at two levels) x 3 flag tuples x selectors (index, negative index, name, unit, '
+        'user-supplied VOILUTTransformation) x voi_output_range x output dtype, 15 % read back from a file), lut / palette (LUT objects: '
+        'lengths 1..700, 255/256/257, 65535/65536/65537; first mapped values incl. refused ones), selectors and placement (exhaustive small '
+        'grids), objects (standalone transformation classes), paths (get_volume / get_total_pixel_matrix / get_volume_from_series).  One '
+        'case = one call judged against the reference pipeline; non-trivial = the call succeeds with at least one stage applied, distinct by '
+        '(stages, placement, dtype, bits, signedness, image)')
+ASSUMPTIONS = [
+    'float64 arithmetic is exact on the generated dyadic parameters (compared exactly as fractions.Fraction where every intermediate '
+    'quantity is a short dyadic, otherwise to 2^-40 relative; float32 outputs to 2^-18); numpy.exp only through a 1e-12 tolerance',
+    'the laws of exp used by fold_sigmoid_inverted (exp(-a) exp(a) = 1, exp > 0) are exercised on numpy.exp by the inverted SIGMOID cases',
+    'refusals the property does not speak about are tolerated and counted (histogram tolerated_refusals): integer / narrower output types '
+    'that cannot hold the result, a VOI LUT behind a non-integer rescale or not starting on an integer stored value',
+    'the ICC transform itself is littleCMS: the test profile exchanges the red and blue colorants so that its application is observable',
+    'constant VOI LUTs (max = min: numpy divides by zero) and window widths <= 1 (LINEAR) / <= 0 are outside the reference and skipped',
+    'pydicom decodes pixel data and DS/FD/US values as written by the generator',
+]
+MODELLED_NOT_VERIFIED = ['numpy.exp / float rounding', 'ICC colour management (PIL ImageCms / littleCMS)',
+                         'pydicom Dataset / MultiValue / ambiguous-VR handling', 'output dtype casts (numpy astype, casting="safe")',
+                         'segmented palette colour LUTs (refused by the library)']
 
 TRI = (True, False, None)
 MONO, COLOR, PALETTE = 'MONOCHROME', 'COLOR', 'PALETTE_COLOR'
